@@ -342,7 +342,7 @@ def oracle_scale(case, rec):
 @st.composite
 def stack_case(draw):
     return {'method': draw(st.sampled_from(METHODS)), 'sr': draw(st.sampled_from(RATES)), 'n': draw(st.integers(300, 1200)),
-            'k': draw(st.integers(0, 2**32 - 1)), 'm': draw(st.integers(1, 3)), 'kk': draw(st.integers(2, 6)),
+            'k': draw(st.integers(0, 2**32 - 1)), 'm': draw(st.integers(1, 3)), 'kk': draw(st.sampled_from([1, 1, 2, 3, 4, 6])),
             'f_rel': draw(st.sampled_from([0.02, 0.04, 0.07])), 'am': draw(st.sampled_from([0.0, 0.3])),
             'fm': draw(st.sampled_from([0.0, 0.8])),
             'layout': draw(st.sampled_from(['C', 'C', 'F', 'swapped', 'strided']))}
